@@ -4,7 +4,9 @@
 # On success copies the seed to /verif/seeded/<PROP>-<k>/ (patch.diff, demo, notes.md, confirm.log).
 export GOFLAGS=-mod=mod GOPROXY=off GOSUMDB=off GOTOOLCHAIN=local
 P=$1; K=$2
-WT=/tmp/wt_$P
+# optional: WTPREFIX (default /tmp/wt_) and OUTK (name suffix of the kept seed, default K)
+WT=${WTPREFIX:-/tmp/wt_}$P
+OUTK=${OUTK:-$K}
 S=$WT/_seed
 M=$WT/gnark-plonky2-verifier
 LOG=/tmp/confirm_${P}_$K.log
@@ -28,7 +30,7 @@ rm -f $M/tests/seed_*_demo_test.go
 git checkout -q -- . ; git clean -fdq -e _seed
 echo "RESULT $P/$K demo_on_head_exit=$r1 build_exit=$rb demo_with_patch_exit=$r2 baseline_with_patch_exit=$r3" | tee -a $LOG
 if [ $r1 -eq 0 ] && [ $rb -eq 0 ] && [ $r2 -ne 0 ] && [ $r3 -eq 0 ]; then
-  D=/verif/seeded/$P-$K; mkdir -p $D
+  D=/verif/seeded/$P-$OUTK; mkdir -p $D
   cp $S/seed_$K.diff $D/patch.diff; cp $DEMO $D/; cp $S/seed_$K.md $D/notes.md; tail -5 $LOG > $D/confirm.log
   echo CONFIRMED
   exit 0
